@@ -162,6 +162,8 @@ inductive AllInts (P : Int → Prop) : JV → Prop
 /-- an integer that a 64-bit signed machine integer can hold -/
 def IsInt64 (i : Int) : Prop := -9223372036854775808 ≤ i ∧ i < 9223372036854775808
 
+instance (i : Int) : Decidable (IsInt64 i) := by unfold IsInt64; infer_instance
+
 /-- a tree whose integer leaves are machine integers (the values the property is about) -/
 abbrev Int64Tree (a : JV) : Prop := AllInts IsInt64 a
 
@@ -185,6 +187,8 @@ def covers (g p : Path) : Bool := !g.isEmpty && matchPrefix g p
 def ignoredB (ign : List Path) (p : Path) : Bool := ign.any (covers · p)
 
 def Ignored (ign : List Path) (p : Path) : Prop := ignoredB ign p = true
+
+instance (ign : List Path) (p : Path) : Decidable (Ignored ign p) := by unfold Ignored; infer_instance
 
 /-- equal once every ignored location is disregarded -/
 def EquivModulo (ign : List Path) (a b : JV) : Prop := ∀ q, LeafDiff a b q → Ignored ign q
